@@ -19,18 +19,60 @@
   checks (`C04_atomic_executions_pass`).  So the oracle states exactly the property and cannot blame an
   implementation whose operations are atomic; conversely a history failing a check has no atomic explanation.
   `C04_register_is_spec` ties the register to the reference map of C01 (version arithmetic of set and delete).
-  Partial: that the real bucket IS atomic at that point under every schedule is what the recorded histories test —
-  real interleavings are sampled (seeded yield injection), not enumerated; concurrent incr is excluded as documented.
+  FINE-GRAINED MODEL (GoBeans/Model/ConcFine.lean, Lemmas/ConcFine*.lean): one bucket with any number of writers
+  (set/delete), readers and flushers, each a program of ATOMIC MICRO-STEPS — one per critical section of the Go code
+  (checkAndSet under bkt.writeLock: tree get, slot choice and chunk append under ds.Mutex, tree set; get: tree get,
+  buffer lookup+copy under the chunk lock, else file read with no lock; dataStore.flush under flushLock: size check,
+  count / fetch under the chunk lock, file write outside it, detach after the stream writer was flushed) — driven by
+  an arbitrary scheduler.  Proved for EVERY schedule (`C04_fine_grained`, `C04_fine_grained_inflight`): the recorded
+  history of every key is an atomic execution, hence passes both checks; a tree item always points at a readable
+  record of its key and version; a position a reader took from the tree stays readable while the record migrates
+  from the buffer to the file; the flusher's `Fatalf` size check and read errors are unreachable
+  (`C04_no_fatal_no_read_error`); some thread can always move (`C04_no_deadlock`).  The granularity of the
+  micro-steps is tied to the code by call-order facts (tie B: bucket.cas.locked, data.append.locked,
+  chunk.append.locked, htree.set.locked, htree.get.locked, chunk.inbuffer.copy, chunk.read.buffer.first,
+  data.flush.locks, chunk.flush.steps, chunk.flush.ledger) — a lock dropped or a step moved breaks a fact.
+  Partial: the model assumes sequential consistency and working mutexes (Go data races such as the unlocked reads
+  of ds.wbufSize / getDiskFileSize are outside it); one bucket; no GC (C05), no incr (excluded as documented), no
+  explicit revisions, hint dumper not modelled; that real schedules realise nothing else is what the recorded
+  histories of engine `conc` test — real interleavings are sampled (seeded yield injection), not enumerated.
   One genuine defect found by this engine and repaired: two dumpers of one hint split ran together and the writer
   crashed on a nil buffer (/repo "fix: two dumpers of one hint split…").
 -/
 import GoBeans.Lemmas.Conc
+import GoBeans.Lemmas.ConcFine
 import GoBeans.Spec.KV
 open Conc
 
 theorem C04_atomic_executions_pass (ss : List Step) (hv : Valid ss) :
     checkA (run {} ss) = true ∧ checkB (run {} ss) = true :=
   ⟨checkA_sound ss hv, checkB_sound ss hv⟩
+
+/-- C04 on the fine-grained model: after ANY schedule of any number of writers, readers and flushers that ends with
+    every operation returned, the recorded history of every key passes both checks of the property. -/
+theorem C04_fine_grained (cfg : ConcFine.Cfg) (sched : List (Nat × ConcFine.Act)) (k : Nat)
+    (hq : ConcFine.quiescent (ConcFine.exec cfg ConcFine.init sched)) :
+    checkA (ConcFine.histOf (ConcFine.exec cfg ConcFine.init sched) k) = true
+    ∧ checkB (ConcFine.histOf (ConcFine.exec cfg ConcFine.init sched) k) = true :=
+  ConcFine.C04_fine cfg sched k hq
+
+/-- … and at any moment, with the operations still in flight completed at any later time -/
+theorem C04_fine_grained_inflight (cfg : ConcFine.Cfg) (sched : List (Nat × ConcFine.Act)) (k fut : Nat)
+    (hfut : (ConcFine.exec cfg ConcFine.init sched).clock ≤ fut) :
+    checkA (ConcFine.histAt (ConcFine.exec cfg ConcFine.init sched) k fut) = true
+    ∧ checkB (ConcFine.histAt (ConcFine.exec cfg ConcFine.init sched) k fut) = true :=
+  ConcFine.C04_fine_general cfg sched k fut hfut
+
+/-- under every schedule: the flusher's file-size check never fails and no get ends in a read error -/
+theorem C04_no_fatal_no_read_error (cfg : ConcFine.Cfg) (sched : List (Nat × ConcFine.Act)) :
+    (ConcFine.exec cfg ConcFine.init sched).fatal = false ∧ (ConcFine.exec cfg ConcFine.init sched).readErr = false :=
+  ConcFine.no_fatal_no_read_error cfg sched
+
+/-- the lock structure cannot wedge: whenever some thread is inside an operation, some thread can take a step -/
+theorem C04_no_deadlock (cfg : ConcFine.Cfg) (sched : List (Nat × ConcFine.Act)) (t : Nat)
+    (hne : ((ConcFine.exec cfg ConcFine.init sched).thr t).pc ≠ .idle) :
+    ∃ u, (ConcFine.step cfg (ConcFine.exec cfg ConcFine.init sched) u .go).isSome = true :=
+  ConcFine.no_deadlock_reachable cfg sched t hne
 
 /-- the checks do not depend on the order in which the events are listed (the harness lists by invocation time) -/
 theorem C04_checkA_perm (h h' : List Ev) (hp : ∀ e, e ∈ h ↔ e ∈ h') (hc : checkA h = true) : checkA h' = true := by
